@@ -137,6 +137,7 @@ class Op:
         self.replies: set[str] = set()
         self.alert_enter = None
         self.alert_exit = None
+        self.collisions = 0  # documented-collision frames (same header, other requester) injected for this op
         self.handoffs: list[tuple[float, int]] = []  # (t, seq) when the frame was handed to the transport
 
     def wire(self, gid: str) -> str:
@@ -409,6 +410,7 @@ class QosSim:
             if f is None:
                 continue
             self.foreign_frames[f] = what
+            self._note_collisions(f)
             self.hub.count("foreign")
             self.ctx.ab(f"{op.kind}:{what}@{pos}")
             lat = {"pre_echo": 0.002, "mid": 0.02, "with_reply": reply_lat - 1e-6}[pos]
@@ -460,6 +462,29 @@ class QosSim:
         if what == "requester":  # documented collision: probe only
             return op.reply_frame(self.gid, self.tag, dst="01:199999" if op.dst[:2] != "01" else "30:199999")
         return f" I --- 04:0{r.randrange(10000, 99999)} --:------ 01:145038 3150 002 0{r.randrange(8)}64"
+
+    def relation(self, op: Op, got: str) -> str | None:
+        """How a packet relates to `op`: 'requester' = its genuine reply but addressed to another requester,
+        'rq_other' = its own request sent by another requester (the documented header collisions), else None."""
+        if got[:2] == op.verb and got[17:26] == op.dst and got[37:41] == op.code and got[7:16] != self.gid \
+                and got[41:] == op.wire(self.gid)[41:]:
+            return "rq_other"
+        gen = op.reply_frame(self.gid, 0)
+        if gen is None or got[:2] != gen[:2] or got[7:16] != gen[7:16] or got[37:41] != gen[37:41]:
+            return None
+        if got[17:26] == gen[17:26]:
+            return None
+        gp, ep = got[46:], gen[46:]
+        sl = {"zone": [(0, 2)], "log": [(4, 6)], "ot": [(4, 6)], "frag": [(0, 2), (10, 12)], "zr": [(0, 4)], "zt": [(0, 4)]}
+        for a, b in sl.get(op.space, []):
+            if gp[a:b] != ep[a:b]:
+                return None
+        return "requester"
+
+    def _note_collisions(self, f: str) -> None:
+        for o in self.ops.values():
+            if self.relation(o, f):
+                o.collisions += 1
 
     # -- a caller --------------------------------------------------------------------
     async def caller(self, cid: int, ops: list[Op]) -> None:
@@ -622,6 +647,7 @@ class QosSim:
             return
         self.hub.count("foreign" if self._busy() else "foreign_idle")
         self.foreign_frames[f] = d["what"]
+        self._note_collisions(f)
         self.hub.rx_line(self.ser, f, 0.0)
 
     def _cancel(self, cid):
@@ -689,8 +715,9 @@ def oracle_c07(sim: QosSim) -> None:
                 cls = sim.foreign_frames.get(got)
                 null0418 = op.code == "0418" and got.endswith(" 0418 022 000000B0000000000000000000007FFFFF7000000000") \
                     and got[7:16] == op.dst
-                if cls in ("requester", "rq_other"):  # documented header collisions: counted, not judged
-                    ctx.probe("returned_" + cls + "_collision")
+                rel = sim.relation(op, got) if cls else None
+                if cls in ("requester", "rq_other") or rel:  # documented header collisions: counted, not judged
+                    ctx.probe("returned_" + (rel or cls) + "_collision")
                 elif null0418:  # a null log entry carries no index: any RQ|0418 to that device may own it
                     ctx.probe("ambiguous_null_0418")
                 else:
